@@ -806,6 +806,10 @@ class Exec:
         if isinstance(tgt, ast.Subscript):
             self.store(tgt, v, st, s)
             return
+        if isinstance(tgt, ast.Attribute) and isinstance(tgt.value, ast.Name) and tgt.value.id == "self" and isinstance(st.env.get("self"), Obj):
+            obj = st.env["self"]
+            st.env["self"] = Obj(obj.cls, {**obj.fields, tgt.attr: v})      # a constructor initialising its own receiver
+            return
         raise Unsupported(f"assignment target {type(tgt).__name__}")
 
     def store(self, tgt, v, st, s):
@@ -1073,6 +1077,8 @@ class Exec:
             return cnt_, lambda t, i, tgt: self.assign(tgt, f(i), t, None)
         if isinstance(it, ast.Call) and isinstance(it.func, ast.Name) and it.func.id == "enumerate":
             src = self.ev(it.args[0], st)
+            if isinstance(src, Tup):
+                return ("unroll", [Tup([iv(k_), x_]) for k_, x_ in enumerate(src.items)])
             if isinstance(src, PairSeq):
                 return src.n, lambda t, i, tgt: self.assign(tgt, Tup([i, src.at(i)]), t, None)
             if not isinstance(src, (Seq,)):
